@@ -169,4 +169,28 @@ WITNESSES = [
     dict(id="c12-ok-spin-blocks-wrapped-result", prop="C12", file=I, expect=None,
          old="        target_idx = self.default_idx\n        itmd = self.expand_itmd(indices=target_idx, fully_expand=False)\n        return allowed_spin_blocks(itmd.expand(), target_idx)",
          new="        def probe(idx):\n            expanded = self.expand_itmd(fully_expand=False, indices=idx)\n            return allowed_spin_blocks(expanded.expand(), idx)\n        blocks = [b for b in probe(self.default_idx)]\n        return tuple(blocks)"),
+    # ---- mutability of the Expr container (permute/subs/expand/substitute_contracted/op= work in place and return self)
+    # mirrors seeded/C12-6: copies dropped, all four summands alias one container
+    dict(id="c12-permute-without-copy-t2_3", prop="C12", file=I, expect=["R12h", "R12d"],
+         old="        base = t2(indices=(i, k, a, c)) * eri((j, c, k, b))\n        itmd += (base.sympy - base.copy().permute((i, j)).sympy\n                 - base.copy().permute((a, b)).sympy\n                 + base.copy().permute((i, j), (a, b)).sympy)\n",
+         new="        base = t2(indices=(i, k, a, c)) * eri((j, c, k, b))\n        itmd += (base.sympy - base.permute((i, j)).sympy\n                 - base.permute((a, b)).sympy\n                 + base.permute((i, j), (a, b)).sympy)\n"),
+    dict(id="c12-permute-without-copy-t2_2", prop="C12", file=I, expect=["R12h", "R12d"],
+         old="        itmd += (base.sympy - base.copy().permute((i, j)).sympy\n                 - base.copy().permute((a, b)).sympy\n                 + base.copy().permute((i, j), (a, b)).sympy)\n        return base_expr(itmd / denom, (i, j, a, b), (k, l, c, d))",
+         new="        itmd += (base.sympy - base.permute((i, j)).sympy\n                 - base.permute((a, b)).sympy\n                 + base.permute((i, j), (a, b)).sympy)\n        return base_expr(itmd / denom, (i, j, a, b), (k, l, c, d))"),
+    # the snapshot .sympy is taken after the in-place permutation (operands reordered)
+    dict(id="c12-snapshot-after-inplace-permute", prop="C12", file=I, expect=["R12h", "R12d"],
+         old="        base = t1(indices=(j, c)) * eri((i, c, a, b))\n        itmd = base.sympy - base.permute((i, j)).sympy",
+         new="        base = t1(indices=(j, c)) * eri((i, c, a, b))\n        itmd = - base.permute((i, j)).sympy + base.sympy"),
+    # preserving: one copy in a temporary, permuted step by step in place: P_ij X, then P_ab P_ij X, then P_ab X
+    dict(id="c12-ok-one-copy-stepwise-inplace", prop="C12", file=I, expect=None,
+         old="        itmd += (base.sympy - base.copy().permute((i, j)).sympy\n                 - base.copy().permute((a, b)).sympy\n                 + base.copy().permute((i, j), (a, b)).sympy)\n        return base_expr(itmd / denom, (i, j, a, b), (k, l, c, d))",
+         new="        work = base.copy()\n        itmd += base.sympy - work.permute((i, j)).sympy\n        itmd += work.permute((a, b)).sympy\n        itmd -= work.permute((i, j)).sympy\n        return base_expr(itmd / denom, (i, j, a, b), (k, l, c, d))"),
+    # preserving: copies held in temporaries
+    dict(id="c12-ok-copies-in-temporaries", prop="C12", file=I, expect=None,
+         old="        base = t2(indices=(i, k, a, c)) * eri((j, c, k, b))\n        itmd += (base.sympy - base.copy().permute((i, j)).sympy\n                 - base.copy().permute((a, b)).sympy\n                 + base.copy().permute((i, j), (a, b)).sympy)\n",
+         new="        base = t2(indices=(i, k, a, c)) * eri((j, c, k, b))\n        p_ij, p_ab, p_ijab = base.copy(), base.copy(), base.copy()\n        p_ij.permute((i, j))\n        p_ab.permute((a, b))\n        p_ijab.permute((i, j), (a, b))\n        itmd += base.sympy - p_ij.sympy - p_ab.sympy + p_ijab.sympy\n"),
+    # preserving: every permutation applied to a fresh expansion instead of a copy
+    dict(id="c12-ok-fresh-expansion-instead-of-copy", prop="C12", file=I, expect=None,
+         old="        base = (\n            t2(indices=(i, k, a, c)) * eri((k, b, j, c))\n        )\n        itmd += (base.sympy - base.copy().permute((i, j)).sympy\n                 - base.copy().permute((a, b)).sympy\n                 + base.copy().permute((i, j), (a, b)).sympy)\n        return base_expr(itmd / denom, (i, j, a, b), (k, l, c, d))",
+         new="        def x():\n            return t2(indices=(i, k, a, c)) * eri((k, b, j, c))\n        itmd += (x().sympy - x().permute((i, j)).sympy\n                 - x().permute((a, b)).sympy\n                 + x().permute((i, j), (a, b)).sympy)\n        return base_expr(itmd / denom, (i, j, a, b), (k, l, c, d))"),
 ]
